@@ -8,4 +8,5 @@ CONSTANTS
     MaxPoolOps = 0
     CreateUnderLock = TRUE
     MayFail = FALSE
+    MayForget = FALSE
 INVARIANTS NaiveReuse
